@@ -89,9 +89,16 @@ pub fn run(ctx: &Ctx) -> i32 {
         st.count("exhaustive_class_alphabet");
         check_case(ctx, st, &tcs, Settings::new(cls_list[i / subs.len()]));
     });
+    // repeated multi-code-point graphemes of which only one code point is converted
+    let det = gen::cluster_repeat_cases();
+    let det_settings = [REP | DIGIT, REP | WORD, REP | NWORD, REP | NDIGIT, REP | SPACE | NSPACE, DIGIT | NWORD, REP | DIGIT | ESC, REP | WORD | VERB];
+    par_for(&ctx.run, det.len() * det_settings.len(), |i, st| {
+        st.count("cluster_repeat_cases");
+        check_case(ctx, st, &det[i % det.len()], Settings::new(det_settings[i / det.len()]));
+    });
     // random
     let n = if ctx.thorough { 150_000 } else { 5_000 };
-    let names = ["classes", "ws", "case", "graph", "mixed", "astral", "meta"];
+    let names = ["classes", "ws", "case", "graph", "mixed", "astral", "meta", "clusters"];
     let alphabets: Vec<(String, Vec<String>)> = names.iter().map(|a| (a.to_string(), gen::alphabet(a))).collect();
     par_for(&ctx.run, n, |i, st| {
         let mut rng = Rng::new(seed, 0x30_0000 + i as u64);
